@@ -9,7 +9,7 @@ import math
 
 import numpy as np
 
-from vf import mexpr
+from vf import adapters, mexpr
 from vf.genflat import idx, num, var
 from vf.worker import exc_sig
 
@@ -138,11 +138,31 @@ def gen_case(rng, force_affine=None):
         tags.add("type:" + typ)
         if lst == "states":
             states.append((name, dims))
+    options = {}
+    if rng.random() < 0.3:
+        options = {"expand_vectors": True}
+        tags.add("option:expand_vectors")
+    if rng.random() < 0.3:
+        # an array parameter used as a (symbolic) array attribute of a variable of the same shape
+        ldims = rng.choice([[rng.randint(2, 3)], [2, 3], [3, 2]])
+        lval = ("arr", [num(round(rng.uniform(1, 9), 1)) for _ in range(ldims[0])]) if len(ldims) == 1 else \
+            ("arr", [("arr", [num(round(rng.uniform(1, 9), 1)) for _ in range(ldims[1])]) for _ in range(ldims[0])])
+        decls.append("  parameter Real L[%s] = %s;" % (", ".join(map(str, ldims)), mexpr.to_text(lval)))
+        ref.append({"name": "L", "list": "parameters", "type": "Real", "dims": ldims, "attrs": {"value": lval}})
+        la = {"max": var("L"), "min": ("bin", "*", ("neg", num(3)), var("L"))}
+        if rng.random() < 0.5:
+            la["nominal"] = ("bin", "+", ("bin", "*", num(2), var("L")), num(1))
+        decls.append("  Real zl[%s]%s;" % (", ".join(map(str, ldims)), fmt_mods(la)))
+        ref.append({"name": "zl", "list": "alg_states", "type": "Real", "dims": ldims, "attrs": la})
+        array_params = {"L": ldims}
+        tags.add("attr:symbolic-array-of-array-parameter")
+    else:
+        array_params = {}
     eqs = []
     for name, dims in states:
         eqs.append("  der(%s) = %s;" % (name, "zeros(%s)" % ", ".join(map(str, dims)) if dims else "1"))
     text = "model M\n" + "\n".join(decls) + "\n" + ("equation\n" + "\n".join(eqs) + "\n" if eqs else "") + "end M;\n"
-    return text, ref, params, tags, force_affine
+    return text, ref, params, tags, force_affine, options, array_params
 
 
 def fmt_mods(attrs):
@@ -158,9 +178,22 @@ def ref_attr(r, a, env):
         return np.full(n, DEFAULTS[a])
     v = mexpr.evaluate(r["attrs"][a], env, "casadi")
     v = np.asarray(v, dtype=float)
+    if "elem" in r and v.ndim > 0:
+        v = np.asarray(v[tuple(r["elem"])], dtype=float)
     if v.ndim == 0:
         return np.full(n, float(v))
     return v.reshape(-1, order="F")
+
+
+def expand_ref(ref):
+    out = []
+    for r in ref:
+        if r["dims"]:
+            for ind in np.ndindex(*r["dims"]):
+                out.append(dict(r, name="%s[%s]" % (r["name"], ",".join(str(i + 1) for i in ind)), dims=[], elem=list(ind)))
+        else:
+            out.append(r)
+    return out
 
 
 def same(a, b):
@@ -179,18 +212,22 @@ def same(a, b):
     return True
 
 
-def check(ctx, text, ref, params, tags, rng):
+def check(ctx, text, ref, params, tags, rng, options=None, array_params=None):
     import casadi as ca
     from pymoca import parser
     from pymoca.backends.casadi import generator
-    case = {"text": text, "ref": ref, "params": params, "tags": sorted(tags)}
+    options = dict(options or {})
+    array_params = dict(array_params or {})
+    case = {"text": text, "ref": ref, "params": params, "tags": sorted(tags), "options": options, "array_params": array_params}
     feat = "core"
+    if options.get("expand_vectors"):
+        ref = expand_ref(ref)
     try:
         tree = parser.parse(text, bypass_cache=True)
         if tree is None:
             raise SyntaxError("generated text rejected")
-        model = generator.generate(tree, "M", {})
-        model.simplify({})
+        model = generator.generate(tree, "M", dict(options))
+        model.simplify(dict(options))
         fmeta = model.variable_metadata_function
     except Exception as e:
         ctx.violation("C13:%s:generate-raises:%s" % (feat, exc_sig(e)), "generation raised %r\n%s" % (e, text), case)
@@ -229,14 +266,19 @@ def check(ctx, text, ref, params, tags, rng):
             pt = {p: round(rng.uniform(-4, 4), 2) for p in params}
         pts.append(pt)
     for pt in pts:
+        for an, ad in array_params.items():
+            pt[an] = np.array([round(rng.uniform(-4, 4), 2) for _ in range(int(np.prod(ad)))]).reshape(ad)
         env = dict(pt)
         # non-scalar / other parameters of the model (named q..) are not referenced by expressions
         pvec = []
         for vparam in model.parameters:
             nm = vparam.symbol.name()
             n = vparam.symbol.numel()
+            base, ix = adapters.split_indexed_name(nm)
             if nm in pt:
-                pvec.append(pt[nm])
+                pvec.extend(np.asarray(pt[nm], dtype=float).reshape(-1, order="F").tolist())
+            elif ix and base in pt:
+                pvec.append(float(np.asarray(pt[base])[ix]))
             else:
                 pvec.extend([0.5] * n)
         try:
@@ -320,14 +362,14 @@ def split(pvec, parameters):
 
 
 def one(ctx, rng, k):
-    text, ref, params, tags, fa = gen_case(rng)
+    text, ref, params, tags, fa, options, array_params = gen_case(rng)
     nexp = sum(len(r["attrs"]) for r in ref)
     kinds = {t for t in tags if t.startswith("attr:") or t.startswith("value:")}
     ctx.case(text, nexp >= 3 and len(kinds) >= 2, {"model": text} if k < 1 else None)
     for t in tags:
         ctx.cover(t)
     ctx.cover("workload:affine-only" if fa else "workload:with-nonaffine")
-    check(ctx, text, ref, params, tags, rng)
+    check(ctx, text, ref, params, tags, rng, options, array_params)
 
 
 def run_shard(ctx):
@@ -342,4 +384,4 @@ def replay(ctx, case):
     logging.getLogger("pymoca").setLevel(logging.ERROR)
     from checks.c03_expr_precedence import _retree
     ref = [dict(r, attrs={k: _retree(v) for k, v in r["attrs"].items()}) for r in case["ref"]]
-    check(ctx, case["text"], ref, case["params"], set(case["tags"]), ctx.rng)
+    check(ctx, case["text"], ref, case["params"], set(case["tags"]), ctx.rng, case.get("options"), case.get("array_params"))
